@@ -400,14 +400,26 @@ func TestC05(t *testing.T) {
 		g := lint.GlobalRegistry()
 		old := g.GetConfiguration()
 		defer g.SetConfiguration(old)
-		type key struct{ obj, reg int }
+		type key struct{ obj, reg, cfg int }
 		memo := map[key]map[string]model.Verdict{}
 		fresh := map[key]bool{}
 		var pool []engine.Case
 		for i, n := 0, rapid.IntRange(2, 5).Draw(rt, "nobj"); i < n; i++ {
 			pool = append(pool, drawObject(rt, 2, true))
 		}
+		// objects whose verdict depends on the configuration make leaks between runs visible
+		sens := sensitiveObjects()
+		cfgDocs := []string{""}
+		for _, ci := range engine.Configurables() {
+			if ss := sens[ci.Name]; len(ss) > 0 {
+				o := ss[rapid.IntRange(0, len(ss)-1).Draw(rt, "sens")]
+				pool = append(pool, engine.Case{Kind: o.Kind, DER: o.DER, Base: o.Name})
+				cfgDocs = append(cfgDocs, altDocs[ci.Name])
+			}
+		}
+		g.SetConfiguration(lint.NewEmptyConfig())
 		regs := []lint.Registry{g}
+		regCfg := []int{0} // index into cfgDocs of the configuration each registry holds
 		regDesc := []string{"global"}
 		parsed := map[int]interface{}{}
 		var hist []string
@@ -435,9 +447,9 @@ func TestC05(t *testing.T) {
 				}
 				rs = lintParsed(c.Kind, obj, regs[ri])
 				v := engine.Verdicts(rs)
-				k := key{oi, ri}
+				k := key{oi, ri, regCfg[ri]}
 				touched[ri] = true
-				hist = append(hist, fmt.Sprintf("lint(obj%d,%s,reuse=%v)", oi, regDesc[ri], reuse))
+				hist = append(hist, fmt.Sprintf("lint(obj%d,%s,cfg%d,reuse=%v)", oi, regDesc[ri], regCfg[ri], reuse))
 				if m, ok := memo[k]; ok {
 					for n, x := range m {
 						if v[n] != x {
@@ -463,15 +475,24 @@ func TestC05(t *testing.T) {
 					rt.Skip("bad filter")
 				}
 				regs = append(regs, r)
+				regCfg = append(regCfg, regCfg[0]) // Filter copies the source registry's configuration
 				b, _ := json.Marshal(f)
 				regDesc = append(regDesc, "filtered:"+short(string(b), 60))
 				hist = append(hist, "filter")
 			},
-			"reconfigure-same": func(rt *rapid.T) {
-				// setting an equal (empty) configuration again is part of the history, not a change of inputs
+			"setConfiguration": func(rt *rapid.T) {
+				// another configuration (or an equal one again) is part of the history; the
+				// memo is keyed by the configuration a registry holds, so coming back to an
+				// earlier configuration must give the earlier verdicts
 				ri := rapid.IntRange(0, len(regs)-1).Draw(rt, "reg")
-				regs[ri].SetConfiguration(lint.NewEmptyConfig())
-				hist = append(hist, "setEmptyConfig("+regDesc[ri]+")")
+				ci := rapid.IntRange(0, len(cfgDocs)-1).Draw(rt, "cfg")
+				cfg, err := lint.NewConfigFromString(cfgDocs[ci])
+				if err != nil {
+					rt.Skip("config does not parse")
+				}
+				regs[ri].SetConfiguration(cfg)
+				regCfg[ri] = ci
+				hist = append(hist, fmt.Sprintf("setConfig(%s,cfg%d)", regDesc[ri], ci))
 			},
 		})
 		rec.Eval()
